@@ -845,6 +845,8 @@ def closeUpvalue (ip : Nat) : M Ctl := do
   let s ← get
   if s.stack.count == 0 then throwE .invalidArgument
   closeUpvalues (s.stack.count - 1)
+  -- (repaired) the instruction stands in for the `Pop` of a captured local: the slot goes
+  let _ ← Vm.pop
   return { ip }
 
 /-- `Return` -/
